@@ -184,6 +184,13 @@ func (c CurlyRouter) computeWebserviceScore(requestTokens []string, tokens []str
 				}
 			}
 			score += 1
+		} else if opening, closing := strings.Index(other, "{"), strings.Index(other, "}"); opening > 0 && closing > opening && strings.Index(other, ":") == -1 {
+			// prefix{var}suffix : only matches tokens that have both literal parts around the value
+			prefix, suffix := other[:opening], other[closing+1:]
+			if len(each) < len(prefix)+len(suffix) || !strings.HasPrefix(each, prefix) || !strings.HasSuffix(each, suffix) {
+				return false, score
+			}
+			score += 1
 		} else {
 			// not a parameter
 			if each != other {
